@@ -359,7 +359,7 @@ class DataFormat(object):
                 )
             self.item_delimiter = item_delimiter
         elif name == KEY_LINE_DELIMITER:
-            line_delimiter_text = value.lower()
+            line_delimiter_text = value.strip().lower()
             if line_delimiter_text not in self._VALID_LINE_DELIMITER_TEXTS:
                 raise errors.InterfaceError(
                     "line delimiter %s must be changed to one of: %s"
@@ -405,7 +405,10 @@ class DataFormat(object):
         assert value is not None
         assert choices
 
-        result = value if not ignore_case else value.lower()
+        # Blanks around the value have no meaning, same as with all the other cells of a CID.
+        result = value.strip()
+        if ignore_case:
+            result = result.lower()
         if result not in choices:
             raise errors.InterfaceError(
                 "data format property %s is %s but must be one of: %s"
@@ -461,7 +464,8 @@ class DataFormat(object):
             result_code = ord(stripped_value)
         else:
             try:
-                tokens = generated_tokens(value)
+                # NOTE: Leading blanks would result in an indentation token.
+                tokens = generated_tokens(stripped_value if stripped_value else value)
                 next_token = next(tokens)
                 if _tools.is_eof_token(next_token):
                     raise errors.InterfaceError("value for %s must be specified" % name_for_errors, location)
